@@ -21,7 +21,7 @@ Theorem items_of_balanced l off ts ds : items_of l off ts ds -> balanced ts.
 Proof.
   induction 1 as [off|off s r ds Hs Hr IH
                  |off kw words cond o body c r ds1 ds2 Hkw Hwords Hcond Hnt Ho Hc Hb IHb Hr IHr
-                 |off pre1 o1 flat c1 post1 semi r ds Hne Hpre1 Ho1 Hflat1 Hc1 Hpost1 Hsemi Hr IH
+                 |off pre1 o1 flat c1 post1 semi r ds Hpre1 Ho1 Hflat1 Hc1 Hpost1 Hsemi Hr IH
                  |off pre hd nm_off hend_off o body c r ds1 ds2 Hpre Hhd Ho Hc Hb IHb Hflat Hr IHr].
   - apply balanced_nil.
   - apply balanced_app; [|exact IH]. apply brace_free_balanced, simple_stmt_brace_free, Hs.
@@ -46,53 +46,32 @@ Proof.
     apply balanced_app; [|exact IHr]. apply balanced_block; assumption.
 Qed.
 
-(* ---------- how an item list starts ---------- *)
-Lemma items_of_head_not_lbrace l off ts ds : items_of l off ts ds -> hd_ok nlb ts.
-Proof.
-  destruct 1 as [off|off s r ds Hs Hr
-                |off kw words cond o body c r ds1 ds2 Hkw Hwords Hcond Hnt Ho Hc Hb Hr
-                |off pre1 o1 flat c1 post1 semi r ds Hne Hpre1 Ho1 Hflat1 Hc1 Hpost1 Hsemi Hr
-                |off pre hd nm_off hend_off o body c r ds1 ds2 Hpre Hhd Ho Hc Hb Hflat Hr].
-  - exact I.
-  - apply brace_free_hd_nlb; [apply simple_stmt_brace_free; exact Hs | apply simple_stmt_nonempty; exact Hs].
-  - cbn [hd_ok]. unfold nlb, is_lbrace. rewrite (keyword_not_symbol _ _ Hkw). reflexivity.
-  - apply brace_free_hd_nlb; [apply plains_brace_free; exact Hpre1 | exact Hne].
-  - rewrite app_assoc. apply brace_free_hd_nlb.
-    + apply Forall_app. split; [apply prefix_brace_free, (prefix_words_toks l), Hpre | eapply fhead_brace_free; exact Hhd].
-    + destruct (fhead_offsets _ _ _ _ Hhd) as [H1 H2]. intros E. apply (f_equal (@length token)) in E.
-      rewrite app_length in E. cbn [length] in E. lia.
-Qed.
-
 (* ---------- the shape clauses ---------- *)
 Theorem items_of_shape l off ts ds : items_of l off ts ds ->
-  forall pre post, length pre = off -> hd_ok nlb post -> Forall (shapeP (pre ++ ts ++ post)) ds.
+  forall pre post, length pre = off -> Forall (shapeP (pre ++ ts ++ post)) ds.
 Proof.
   induction 1 as [off|off s r ds Hs Hr IH
                  |off kw words cond o body c r ds1 ds2 Hkw Hwords Hcond Hnt Ho Hc Hb IHb Hr IHr
-                 |off pre1 o1 flat c1 post1 semi r ds Hne Hpre1 Ho1 Hflat1 Hc1 Hpost1 Hsemi Hr IH
+                 |off pre1 o1 flat c1 post1 semi r ds Hpre1 Ho1 Hflat1 Hc1 Hpost1 Hsemi Hr IH
                  |off pre0 hd nm_off hend_off o body c r ds1 ds2 Hpre Hhd Ho Hc Hb IHb Hflat Hr IHr];
-    intros pre post Hlen Hpost.
+    intros pre post Hlen.
   - constructor.
   - replace (pre ++ (s ++ r) ++ post) with ((pre ++ s) ++ r ++ post) by (norm_app; reflexivity).
-    apply IH; [norm_len; lia | exact Hpost].
-  - assert (Hcpost : hd_ok nlb (c :: r ++ post)).
-    { cbn [hd_ok]. unfold nlb. rewrite (rbrace_not_lbrace _ Hc). reflexivity. }
-    apply Forall_app. split.
+    apply IH; norm_len; lia.
+  - apply Forall_app. split.
     + replace (pre ++ (kw :: words ++ cond ++ o :: body ++ c :: r) ++ post)
         with ((pre ++ kw :: words ++ cond ++ [o]) ++ body ++ (c :: r ++ post)) by (norm_app; reflexivity).
-      apply IHb; [norm_len; lia | exact Hcpost].
+      apply IHb; norm_len; lia.
     + replace (pre ++ (kw :: words ++ cond ++ o :: body ++ c :: r) ++ post)
         with ((pre ++ kw :: words ++ cond ++ o :: body ++ [c]) ++ r ++ post) by (norm_app; reflexivity).
-      apply IHr; [norm_len; lia | exact Hpost].
+      apply IHr; norm_len; lia.
   - replace (pre ++ (pre1 ++ o1 :: flat ++ c1 :: post1 ++ semi :: r) ++ post)
       with ((pre ++ pre1 ++ o1 :: flat ++ c1 :: post1 ++ [semi]) ++ r ++ post) by (norm_app; reflexivity).
-    apply IH; [norm_len; lia | exact Hpost].
-  - assert (Hcpost : hd_ok nlb (c :: r ++ post)).
-    { cbn [hd_ok]. unfold nlb. rewrite (rbrace_not_lbrace _ Hc). reflexivity. }
-    destruct (fhead_offsets _ _ _ _ Hhd) as [Hn Hh].
+    apply IH; norm_len; lia.
+  - destruct (fhead_offsets _ _ _ _ Hhd) as [Hn Hh].
     constructor; [|apply Forall_app; split].
     + unfold shapeP. cbn [fd_start fd_name fd_hend fd_open fd_close].
-      split; [lia|]. split; [lia|]. split; [|split; [|split]].
+      split; [lia|]. split; [lia|]. split; [|split].
       * replace (pre ++ (pre0 ++ hd ++ o :: body ++ c :: r) ++ post)
           with ((pre ++ pre0 ++ hd) ++ o :: body ++ c :: (r ++ post)) by (norm_app; reflexivity).
         replace (off + length pre0 + length hd) with (length (pre ++ pre0 ++ hd)) by (norm_len; lia).
@@ -102,18 +81,12 @@ Proof.
         replace (pre ++ (pre0 ++ hd ++ o :: body ++ c :: r) ++ post)
           with ((pre ++ pre0) ++ hd ++ (o :: body ++ c :: r ++ post)) by (norm_app; reflexivity).
         apply brace_free_sym_at; [eapply fhead_brace_free; exact Hhd | norm_len; lia].
-      * replace (pre ++ (pre0 ++ hd ++ o :: body ++ c :: r) ++ post)
-          with ((pre ++ pre0 ++ hd ++ o :: body ++ [c]) ++ (r ++ post)) by (norm_app; reflexivity).
-        replace (S (off + length pre0 + length hd + 1 + length body))
-          with (length (pre ++ pre0 ++ hd ++ o :: body ++ [c])) by (norm_len; lia).
-        apply sym_at_hd_nlb. apply hd_ok_app; [|exact Hpost].
-        eapply items_of_head_not_lbrace; exact Hr.
     + replace (pre ++ (pre0 ++ hd ++ o :: body ++ c :: r) ++ post)
         with ((pre ++ pre0 ++ hd ++ [o]) ++ body ++ (c :: r ++ post)) by (norm_app; reflexivity).
-      apply IHb; [norm_len; lia | exact Hcpost].
+      apply IHb; norm_len; lia.
     + replace (pre ++ (pre0 ++ hd ++ o :: body ++ c :: r) ++ post)
         with ((pre ++ pre0 ++ hd ++ o :: body ++ [c]) ++ r ++ post) by (norm_app; reflexivity).
-      apply IHr; [norm_len; lia | exact Hpost].
+      apply IHr; norm_len; lia.
 Qed.
 
 (* ---------- position and ordering of the descriptors ---------- *)
@@ -129,7 +102,7 @@ Theorem items_of_order l off ts ds : items_of l off ts ds ->
 Proof.
   induction 1 as [off|off s r ds Hs Hr IH
                  |off kw words cond o body c r ds1 ds2 Hkw Hwords Hcond Hnt Ho Hc Hb IHb Hr IHr
-                 |off pre1 o1 flat c1 post1 semi r ds Hne Hpre1 Ho1 Hflat1 Hc1 Hpost1 Hsemi Hr IH
+                 |off pre1 o1 flat c1 post1 semi r ds Hpre1 Ho1 Hflat1 Hc1 Hpost1 Hsemi Hr IH
                  |off pre0 hd nm_off hend_off o body c r ds1 ds2 Hpre Hhd Ho Hc Hb IHb Hflat Hr IHr].
   - split; constructor.
   - destruct IH as [I1 I2]. split; [|exact I2].
@@ -162,7 +135,7 @@ Proof.
   intros Hl.
   induction 1 as [off|off s r ds Hs Hr IH
                  |off kw words cond o body c r ds1 ds2 Hkw Hwords Hcond Hnt Ho Hc Hb IHb Hr IHr
-                 |off pre1 o1 flat c1 post1 semi r ds Hne Hpre1 Ho1 Hflat1 Hc1 Hpost1 Hsemi Hr IH
+                 |off pre1 o1 flat c1 post1 semi r ds Hpre1 Ho1 Hflat1 Hc1 Hpost1 Hsemi Hr IH
                  |off pre0 hd nm_off hend_off o body c r ds1 ds2 Hpre Hhd Ho Hc Hb IHb Hflat Hr IHr].
   - constructor.
   - exact IH.
@@ -181,7 +154,7 @@ Qed.
 Theorem canonical_of_wf : forall l ts ds, l <> LPython -> canonical_program_of l ts ds -> wf_descs ts ds.
 Proof.
   intros l ts ds _ H. unfold canonical_program_of in H. constructor.
-  - pose proof (items_of_shape l 0 ts ds H [] [] eq_refl I) as HS.
+  - pose proof (items_of_shape l 0 ts ds H [] [] eq_refl) as HS.
     cbn [app] in HS. rewrite app_nil_r in HS. exact HS.
   - destruct (items_of_order l 0 ts ds H) as [_ HS].
     intros i j di dj Hij Hi Hj. exact (StronglySorted_nth ord ds HS i j di dj Hij Hi Hj).
